@@ -452,6 +452,98 @@ def g_heat():
     return heat_tr.build()
 
 
+@group('rmtv')
+def g_rmtv():
+    """RMTV (rmtv/timmes.py): the ODE integration is outside the translated subset; what IS translated is the tail of
+    rmtv_1d that converts the integration variables to the returned physical quantities (density, temperature, energy,
+    pressure, velocity), together with the checked plumbing rmtv_1d -> rmtv -> Rmtv._run -> field names."""
+    import copy
+    from py2coq import free_vars, Interp, Raised
+    mod = Module(os.path.join(S, 'rmtv/timmes.py'))
+    f1 = mod.funcs['rmtv_1d']
+    order = ['den', 'tev', 'ener', 'pres', 'vel']
+
+    def ret_names(fn):
+        r = fn.body[-1]
+        if not (isinstance(r, ast.Return) and isinstance(r.value, ast.Tuple)):
+            raise Unsupported('rmtv: %s does not end in return of a tuple' % fn.name)
+        return [getattr(e, 'id', None) for e in r.value.elts]
+    if ret_names(f1) != order or ret_names(mod.funcs['rmtv']) != order:
+        raise Unsupported('rmtv: return order of rmtv_1d / rmtv is not den, tev, ener, pres, vel')
+    # vector wrapper: d, t, e, p, v = rmtv_1d(...); den[i] = d ...
+    loop = [st for st in mod.funcs['rmtv'].body if isinstance(st, ast.For)]
+    if len(loop) != 1:
+        raise Unsupported('rmtv: wrapper loop')
+    asg = loop[0].body[0]
+    if not (isinstance(asg, ast.Assign) and isinstance(asg.targets[0], ast.Tuple) and isinstance(asg.value, ast.Call) and getattr(asg.value.func, 'id', '') == 'rmtv_1d'):
+        raise Unsupported('rmtv: wrapper does not call rmtv_1d')
+    tmp = [e.id for e in asg.targets[0].elts]
+    got = {}
+    for st in loop[0].body[1:]:
+        if not (isinstance(st, ast.Assign) and isinstance(st.targets[0], ast.Subscript) and isinstance(st.value, ast.Name)):
+            raise Unsupported('rmtv: wrapper loop statement line %d' % st.lineno)
+        got[st.targets[0].value.id] = st.value.id
+    if [got.get(n) for n in order] != tmp:
+        raise Unsupported('rmtv: wrapper stores the results of rmtv_1d in a different order')
+    cmod = Module(os.path.join(S, 'rmtv/rmtv.py'))
+    run = [st for st in cmod.classes['Rmtv'].body if isinstance(st, ast.FunctionDef) and st.name == '_run'][0]
+    a0 = run.body[0] if isinstance(run.body[0], ast.Assign) else run.body[1]
+    a0 = [st for st in run.body if isinstance(st, ast.Assign)][0]
+    if [e.id for e in a0.targets[0].elts] != order or getattr(a0.value.func, 'id', '') != 'rmtv':
+        raise Unsupported('rmtv: Rmtv._run unpacking')
+    kw = {k.arg: k.value.attr for k in a0.value.keywords if isinstance(k.value, ast.Attribute)}
+    if kw.get('gamma') != 'gamma' or kw.get('bigamma') != 'bigamma':
+        raise Unsupported('rmtv: Rmtv._run does not pass gamma / bigamma through')
+    ret = run.body[-1].value
+    data = [e.id for e in ret.args[0].elts]
+    names = [e.value for e in [k.value for k in ret.keywords if k.arg == 'names'][0].elts]
+    if data != ['r'] + order:
+        raise Unsupported('rmtv: Rmtv._run returns %r' % data)
+    field = dict(zip(data, names))
+    # the conversion tail: inside `if (rpos > rstar): ... else:` the assignments to vel, den, ener, pres, tev after the last solve_ivp
+    top = [st for st in f1.body if isinstance(st, ast.If) and isinstance(st.test, ast.Compare) and getattr(st.test.left, 'id', '') == 'rpos']
+    if len(top) != 1:
+        raise Unsupported('rmtv_1d: heat-front branch not found')
+    ahead, behind = top[0].body, top[0].orelse
+    tail = []
+    for st in behind:
+        if isinstance(st, ast.Assign) and isinstance(st.targets[0], ast.Name) and st.targets[0].id in order:
+            tail.append(st)
+    if [st.targets[0].id for st in tail][:5] != ['vel', 'den', 'ener', 'pres', 'tev']:
+        raise Unsupported('rmtv_1d: conversion statements are %r' % [st.targets[0].id for st in tail])
+
+    class Y(ast.NodeTransformer):
+        def visit_Subscript(self, n):
+            if isinstance(n.value, ast.Name) and n.value.id == 'ystart' and isinstance(n.slice, ast.Constant):
+                return ast.copy_location(ast.Name(id='y%d' % n.slice.value, ctx=ast.Load()), n)
+            return self.generic_visit(n)
+    body = [Y().visit(copy.deepcopy(st)) for st in tail] + [ast.parse('return (den, tev, ener, pres, vel)').body[0]]
+    fvars = ['alpha', 'rpos', 'time', 'gamma', 'bigamma', 'g0', 'kappa', 'xi_end', 'sigma', 'y0', 'y1', 'y3']
+    fn = ast.FunctionDef(name='rmtv_tail', args=ast.arguments(posonlyargs=[], args=[ast.arg(arg=a) for a in fvars], kwonlyargs=[], kw_defaults=[], defaults=[]), body=body, decorator_list=[])
+    ast.fix_missing_locations(fn)
+    mod.funcs['rmtv_tail'] = fn
+    ret, interp = translate_function(mod, 'rmtv_tail', [(a, a) for a in fvars])
+    text = HEADER % 'exactpack/solvers/rmtv/timmes.py (conversion of the integration variables to the returned fields), rmtv.py'
+    js = {}
+    for nm, e in zip(order, ret):
+        args = sorted(free_vars(e))
+        text += '\n' + emit_function('rmtv_' + field[nm], args, e, comment='field %s (local %s of rmtv_1d), behind the heat front' % (field[nm], nm))
+        text += '#[global] Hint Unfold rmtv_%s : epgen.\n' % field[nm]
+        js[field[nm]] = {'args': args, 'expr': expr_to_json(e)}
+    # ahead of the heat front: literal constants
+    ah = {}
+    for st in ahead:
+        if isinstance(st, ast.Assign) and isinstance(st.targets[0], ast.Name) and st.targets[0].id in order:
+            ah[st.targets[0].id] = st.value
+    for nm in ('ener', 'pres', 'tev', 'vel'):
+        v = ah.get(nm)
+        if not (isinstance(v, ast.Constant) and v.value == 0.0):
+            raise Unsupported('rmtv_1d: %s ahead of the heat front is not the literal 0.0' % nm)
+    text += '\n(* ahead of the heat front rmtv_1d returns the literal 0.0 for energy, pressure, temperature and velocity *)\n'
+    text += 'Definition rmtv_ahead_zero : list string := [%s].\n' % '; '.join('"%s"%%string' % field[n] for n in ('ener', 'pres', 'tev', 'vel'))
+    return {'Rmtv': (text, js)}
+
+
 @group('radshock')
 def g_radshock():
     """travelling-wave structure of the radiative-shock wrappers' _run (np.interp on flipped profile arrays with
